@@ -3,7 +3,7 @@ import steps_C13
 
 ID = "C13"
 PROP = {
-    "modules": ["Gnmi.Props.C13", "Gnmi.Props.C13Prog"],
+    "modules": ["Gnmi.Props.C13", "Gnmi.Props.C13Prog", "Gnmi.Props.C13Shared"],
     "theorems": ["Gnmi.C13." + t for t in [
         "trace_in_discipline", "trace_state", "trace_shape", "attempt_trace_facts", "attempt_trace_connect", "updates_in_stream_order", "exec_reachable", "reconnect_effective",
         "silence_after_remove", "silent_step", "remove_unregisters", "one_monitor_per_name",
@@ -18,7 +18,11 @@ PROP = {
         "reconnect_forces_reset", "timeout_forces_reset", "recon_pending_stable", "timeout_armed_stable", "tmoOK_reach",
         "reset_exactly_once",
         "managed_not_terminal", "managed_not_terminal_of", "managed_not_terminal_needs_hyp",
-        "managed_between", "one_more_attempt", "retry_forever_run"]],
+        "managed_between", "one_more_attempt", "retry_forever_run"]] + ["Gnmi.C13Shared." + t for t in [
+        # targets sharing an address: the manager LTS composed with the connection-manager LTS (C16)
+        "step_req", "PReach.mgr", "PReach.conn", "pinv_init", "pinv_step", "pinv_reach",
+        "shared_never_closed_while_held", "sharers_share_one_connection",
+        "failed_shared_dial_forgotten", "retry_after_failed_shared_dial_dials_afresh"]],
     "components": [
         {"c": "mg", "quick": {"n": 120, "exhaustive": True}, "thorough": {"n": 1000, "exhaustive": True, "seeds": 3}},
     ],
@@ -28,6 +32,10 @@ PROP = {
     "trusted_base": COMMON_TB + [
         "proof of the protocol LTS (Model/ManagerLTS.lean); real timers, gRPC and context cancellation are exercised by the mg correspondence, not proved",
         "environment hypothesis: Recv fails once its context is cancelled; collaborators (credentials lookup, ConnectionManager) return when their context is cancelled",
+        "targets sharing an address: the composition Props/C13Shared.lean (every Connection call of a monitor goroutine is a requester of the "
+        "connection-manager LTS Model/ConnLTS.lean for the target's address; monitor's deferred done is that requester's done) as a description "
+        "of manager.go + connection.go together; validated by the `mg shared` scenarios (real manager.Manager on the real connection.Manager, "
+        "2-3 targets on one address, joint first dial refused / cancelled), not proved",
     ],
     "assumptions": ["Recv returns an error once the stream's context is cancelled (gRPC contract)",
                     "user callbacks terminate and do not call back into the Manager",
